@@ -212,49 +212,62 @@ func c13r4(rc *core.RC) {
 			continue
 		}
 		rc.Touch("json." + spec.fn)
-		info := p.Info(fd)
 		n := 0
-		ast.Inspect(fd.Body, func(x ast.Node) bool {
-			ret, ok := x.(*ast.ReturnStmt)
-			if !ok || len(ret.Results) != 1 {
-				return true
-			}
-			call, ok := ret.Results[0].(*ast.CallExpr)
-			if !ok {
-				return true
-			}
-			callee := core.Callee(info, call)
-			if callee == nil || callee.Pkg() == nil {
-				return true
-			}
-			n++
-			rc.CallSites++
-			chain := condChain(p, info, fd, ret)
-			debug, color := false, false
-			// conditions that always return make later code run under their negation
-			for _, c := range chain {
-				if strings.Contains(c.text, "DebugOption") && c.pos {
-					debug = true
+		// walk follows helpers of package json called in return position: the options tested on the way to the helper
+		// still hold inside it
+		var walk func(fd *ast.FuncDecl, debug, color bool, via string, depth int)
+		walk = func(fd *ast.FuncDecl, debug0, color0 bool, via string, depth int) {
+			info := p.Info(fd)
+			ast.Inspect(fd.Body, func(x ast.Node) bool {
+				ret, ok := x.(*ast.ReturnStmt)
+				if !ok || len(ret.Results) != 1 {
+					return true
 				}
-				if strings.Contains(c.text, "ColorizeOption") && c.pos {
-					color = true
+				call, ok := ret.Results[0].(*ast.CallExpr)
+				if !ok {
+					return true
 				}
-			}
-			want := "vm"
-			if color {
-				want += "_color"
-			}
-			if spec.indent {
-				want += "_indent"
-			}
-			wantFn := "Run"
-			if debug {
-				wantFn = "DebugRun"
-			}
-			key := fmt.Sprintf("json.%s/debug=%v,color=%v", spec.fn, debug, color)
-			rc.Check(callee.Pkg().Name() == want && callee.Name() == wantFn, key, call.Pos(), "calls %s.%s; the option combination names %s.%s", callee.Pkg().Name(), callee.Name(), want, wantFn)
-			return true
-		})
+				callee := core.Callee(info, call)
+				if callee == nil || callee.Pkg() == nil {
+					return true
+				}
+				chain := condChain(p, info, fd, ret)
+				debug, color := debug0, color0
+				// conditions that always return make later code run under their negation
+				for _, c := range chain {
+					if strings.Contains(c.text, "DebugOption") && c.pos {
+						debug = true
+					}
+					if strings.Contains(c.text, "ColorizeOption") && c.pos {
+						color = true
+					}
+				}
+				if callee.Pkg().Name() == "json" && depth < 3 {
+					if h := p.Func("json", callee.Name()); h != nil && h.Body != nil && h != fd {
+						rc.Touch("json." + callee.Name())
+						walk(h, debug, color, via+callee.Name()+">", depth+1)
+						return true
+					}
+				}
+				n++
+				rc.CallSites++
+				want := "vm"
+				if color {
+					want += "_color"
+				}
+				if spec.indent {
+					want += "_indent"
+				}
+				wantFn := "Run"
+				if debug {
+					wantFn = "DebugRun"
+				}
+				key := fmt.Sprintf("json.%s/debug=%v,color=%v", spec.fn, debug, color)
+				rc.Check(callee.Pkg().Name() == want && callee.Name() == wantFn, key, call.Pos(), "%scalls %s.%s; the option combination names %s.%s", via, callee.Pkg().Name(), callee.Name(), want, wantFn)
+				return true
+			})
+		}
+		walk(fd, false, false, "", 0)
 		if n != 4 {
 			rc.Unknown("json."+spec.fn+"/matrix", fd.Pos(), "expected 4 dispatch returns, found %d", n)
 		}
@@ -1221,4 +1234,75 @@ func c13r12(rc *core.RC) {
 		}
 		return "; differs for: " + strings.Join(diffs, ", ") + " — the same string is spelled differently depending on options that do not name that byte"
 	}())
+}
+
+// ---- C13.R13 the key comparator takes the recorded keys whole ----
+
+// The four interpreters record a map key as the bytes they wrote for it, and what follows the key text differs
+// between them (`":`, `": `, colour codes). Mapslice.Less is shared: comparing the recorded keys whole orders by the
+// common prefix (quote, key text, quote), the same in every interpreter; trimming a fixed number of bytes is right
+// for at most one of them and makes the same map come out in different orders with and without indentation.
+func c13r13(rc *core.RC) {
+	p := rc.P
+	fd := p.Func("encoder", "Mapslice.Less")
+	if fd == nil || fd.Body == nil {
+		rc.Unknown("encoder.Mapslice.Less", token.NoPos, "comparator not found")
+		return
+	}
+	info := p.Info(fd)
+	fn := p.FuncName(fd)
+	rc.Touch(fn)
+	// single-definition locals
+	defs := map[types.Object]ast.Expr{}
+	ast.Inspect(fd.Body, func(x ast.Node) bool {
+		if as, ok := x.(*ast.AssignStmt); ok && len(as.Lhs) == len(as.Rhs) {
+			for i, l := range as.Lhs {
+				if id, ok := l.(*ast.Ident); ok {
+					if o := core.ObjOf(info, id); o != nil {
+						if _, dup := defs[o]; dup {
+							defs[o] = nil
+						} else {
+							defs[o] = as.Rhs[i]
+						}
+					}
+				}
+			}
+		}
+		return true
+	})
+	var resolve func(e ast.Expr, d int) ast.Expr
+	resolve = func(e ast.Expr, d int) ast.Expr {
+		e = core.Unparen(e)
+		if id, ok := e.(*ast.Ident); ok && d < 4 {
+			if r := defs[core.ObjOf(info, id)]; r != nil {
+				return resolve(r, d+1)
+			}
+		}
+		return e
+	}
+	n := 0
+	ast.Inspect(fd.Body, func(x ast.Node) bool {
+		call, ok := x.(*ast.CallExpr)
+		if !ok || core.CalleeName(info, call) != "bytes.Compare" || len(call.Args) != 2 {
+			return true
+		}
+		for i, a := range call.Args {
+			n++
+			key := fmt.Sprintf("%s/operand#%d whole-recorded-key", fn, i+1)
+			r := resolve(a, 0)
+			switch v := r.(type) {
+			case *ast.SelectorExpr:
+				_, isIdx := core.Unparen(v.X).(*ast.IndexExpr)
+				rc.Check(v.Sel.Name == "Key" && isIdx, key, a.Pos(), "the operand is the recorded key of an item (%s)", core.Src(p.Fset, r))
+			case *ast.SliceExpr:
+				rc.Bad(key, a.Pos(), "the comparator re-slices the recorded key (%s): what follows the key text differs between the interpreters, so a fixed trim orders the same map differently with and without indentation or colour", core.Src(p.Fset, r))
+			default:
+				rc.Unknown(key, a.Pos(), "operand %s is neither a recorded key nor a slice of one", core.Src(p.Fset, r))
+			}
+		}
+		return true
+	})
+	if n != 2 {
+		rc.Unknown(fn+"/comparison", fd.Pos(), "expected one bytes.Compare of two keys, found %d operands", n)
+	}
 }
